@@ -27,8 +27,9 @@ Definition dec_run (s : sexp) : option runres :=
       else if str_eqb k (lit "result") then option_map RunResult (atom_nat n)
       else None
   | SList [Atom k] => if str_eqb k (lit "ctxerr") then Some (RunErr ErrCtx) else None
-  | SList [Atom k; SList rws; fail; closeerr] =>
+  | SList [Atom k; SList rws; fail; closeerr; Atom more] =>
       if str_eqb k (lit "rows") then
+        obind (atom_bool more) (fun more' =>
         obind (omap dec_row rws) (fun rws' =>
         obind (match fail with
                | Atom a => if str_eqb a (lit "none") then Some None else None
@@ -36,9 +37,9 @@ Definition dec_run (s : sexp) : option runres :=
                | _ => None
                end) (fun fail' =>
         obind (dec_opt_nat closeerr) (fun ce =>
-        Some (RunRows {| r_pending := rws'; r_fail := fail'; r_close_err := ce; r_closed := false;
-                         r_lasterr := None; r_hit_eof := false; r_current := None;
-                         r_driver_closes := 0 |}))))
+        Some (RunRows {| r_pending := rws'; r_fail := fail'; r_close_err := ce; r_more := more'; r_closed := false;
+                         r_lasterr := None; r_hiteof := false; r_ctxdone := false; r_current := None;
+                         r_driver_closes := 0 |})))))
       else None
   | _ => None
   end.
